@@ -9,3 +9,4 @@ pub mod coerce;
 pub mod depth;
 pub mod linecol;
 pub mod typerel;
+pub mod executor;
